@@ -14,7 +14,7 @@ Definition ids (ks : keyset) : list N := map key_id (ks_keys ks).
 
 Definition key_known (k : option pkey) : Prop :=
   exists pk kd, k = Some pk /\ k_data pk = Some kd
-    /\ (k_prefix pk = 1 \/ k_prefix pk = 2 \/ k_prefix pk = 3 \/ k_prefix pk = 4)   (* TINK LEGACY RAW CRUNCHY *)
+    /\ (k_prefix pk = 1 \/ k_prefix pk = 2 \/ k_prefix pk = 3 \/ k_prefix pk = 4 \/ k_prefix pk = 5)   (* TINK LEGACY RAW CRUNCHY WITH_ID_REQUIREMENT *)
     /\ (k_status pk = 1 \/ k_status pk = 2 \/ k_status pk = 3).                      (* ENABLED DISABLED DESTROYED *)
 
 (* at least one key, distinct ids, exactly one key carries the primary id and
@@ -34,7 +34,7 @@ Definition wf_handle (h : handle) : Prop :=
   /\ count_prim h = 1%nat
   /\ (forall e, In e h -> eprim e = true -> estatus e = 1)
   /\ (forall e, In e h -> estatus e = 1 \/ estatus e = 2 \/ estatus e = 3)
-  /\ (forall e, In e h -> eprefix e = 1 \/ eprefix e = 2 \/ eprefix e = 3 \/ eprefix e = 4)
+  /\ (forall e, In e h -> eprefix e = 1 \/ eprefix e = 2 \/ eprefix e = 3 \/ eprefix e = 4 \/ eprefix e = 5)
   /\ (forall e, In e h -> ereq e = if eprefix e =? 3 then None else Some (eid e)).   (* RAW => no id requirement *)
 
 (* ---- minimum strengths (the property's list) ---- *)
